@@ -1,5 +1,5 @@
 """Level texts for MANIFEST.json."""
-HOOK_COMMITS = ["645c65a", "e34ba59", "f51c5d9", "f6ed18e", "079d75a", "f4d99a1"]
+HOOK_COMMITS = ["645c65a", "e34ba59", "f51c5d9", "f6ed18e", "079d75a", "f4d99a1", "7965506"]
 NOT_APPLICABLE = {}
 LEVELS = {
     "C07": {
